@@ -10,7 +10,7 @@ MAXSIZE = 4096
 TYPE = 5
 
 
-def drive(exe, lines, timeout=1500, max_aborts=5):
+def drive(exe, lines, timeout=1500, max_aborts=300):
     outs = [None] * len(lines)
     aborts = []
     start = 0
@@ -23,7 +23,8 @@ def drive(exe, lines, timeout=1500, max_aborts=5):
         if start < len(lines):
             if r.returncode == 0:
                 raise vlib.MachineryError('driver answered %d of %d lines but exited 0: %s' % (start, len(lines), r.stderr[-600:]))
-            aborts.append((start, r.stderr[-1500:]))
+            k = r.stderr.find('ERROR: AddressSanitizer')
+            aborts.append((start, r.stderr[k:k + 1800] if k >= 0 else r.stderr[-1500:]))
             start += 1
             if len(aborts) >= max_aborts:
                 break
@@ -257,6 +258,7 @@ def run(ctx):
     lines = gen(ctx)
     ctx.log('spec model-checked; driver built; %d cases' % len(lines))
     outs, aborts = drive(exe, lines)
+    abort_classes = {}
     for idx, err in aborts:
         import re
         m = re.search(r'AddressSanitizer: (\S+)', err)
@@ -265,6 +267,10 @@ def run(ctx):
         sizes = [int(t.split(':')[1]) for t in lines[idx].split() if t.startswith('size:')]
         cls = {'kind': 'reads-beyond-buffer', 'cause': 'size-field-exceeds-capacity', 'asan': asan} if sizes and sizes[-1] > MAXSIZE and asan == 'heap-buffer-overflow-read' \
             else {'kind': 'abort', 'asan': asan}
+        key = json.dumps(cls, sort_keys=True)
+        abort_classes[key] = abort_classes.get(key, 0) + 1
+        if abort_classes[key] > 1:
+            continue
         ctx.violation('TypedMsgHdr aborted under ASan while evaluating: %s' % (lines[idx][:160] if len(lines[idx]) < 400 else lines[idx][:60] + ' ... ' + lines[idx][-160:]),
                       {'class': cls, 'line': lines[idx][-1500:], 'stderr': err[:2500]})
     recs, src = [], []
@@ -290,6 +296,7 @@ def run(ctx):
             o['wire']['type'], o['wire']['size'], len(o['wire']['raw']), o['mut'], gets[:300], cls['kind']),
             {'class': cls, 'line': lines[src[i]][-1500:], 'gets': [{k2: (v2 if not isinstance(v2, list) else v2[:24]) for k2, v2 in g.items()} for g in o['gets'][-6:]], 'wire': {'type': o['wire']['type'], 'size': o['wire']['size']}})
     ctx.cov['p_rejected_by_class'] = per_class
+    ctx.cov['aborted_by_class'] = abort_classes
     for i in irej:
         if i not in prej and len(ctx.drift) < 5:
             ln = lines[src[i]]
